@@ -624,19 +624,22 @@ Proof.
       { apply (mon_poll_errs_other PC15); try discriminate; [rewrite Hf; apply onlyp_nil|intros _; exact H15]. }
       exact (Ho r Hr Hp15).
     + intros r Hr Hp15. rewrite mon_poll2_eq in Hr. cbn [snd] in Hr.
-      rewrite Hrr, Hend, H13 in Hr. cbn [app] in Hr.
-      repeat (apply in_app_or in Hr; destruct Hr as [Hr|Hr]).
-      * exfalso. pose proof (y_e_found_only _ _ _ _ r Hr) as C. rewrite Hp15 in C. discriminate C.
-      * exfalso. pose proof (y_e_tok_only _ _ _ r Hr) as C. rewrite Hp15 in C. discriminate C.
-      * exfalso. pose proof (y_e_sweep_only _ _ _ _ r Hr) as C. rewrite Hp15 in C. discriminate C.
-      * exfalso. pose proof (y_e_scan_only _ _ _ _ r Hr) as C. rewrite Hp15 in C. discriminate C.
-      * (* the liveness group: the only C15 rule in it *)
-        unfold y_e_live in Hr.
-        destruct (y_quiet m g _ && y_expired p g _ && negb (y_acted m _)); [|contradiction].
-        repeat (apply in_app_or in Hr; destruct Hr as [Hr|Hr]).
-        -- destruct (y_waiting_c12 m); [destruct Hr as [<-|[]]; discriminate Hp15|contradiction].
-        -- destruct (state_kind_eqb _ _); [destruct Hr as [<-|[]]; discriminate Hp15|contradiction].
-        -- destruct (state_kind_eqb _ _); [destruct Hr as [<-|[]]; reflexivity|contradiction].
+      apply in_app_or in Hr; destruct Hr as [Hr|Hr]; [exfalso; pose proof (y_e_found_only _ _ _ _ r Hr) as C; rewrite Hp15 in C; discriminate C|].
+      apply in_app_or in Hr; destruct Hr as [Hr|Hr]; [exfalso; pose proof (y_e_tok_only _ _ _ r Hr) as C; rewrite Hp15 in C; discriminate C|].
+      apply in_app_or in Hr; destruct Hr as [Hr|Hr]; [exfalso; pose proof (y_e_sweep_only _ _ _ _ r Hr) as C; rewrite Hp15 in C; discriminate C|].
+      apply in_app_or in Hr; destruct Hr as [Hr|Hr]; [rewrite H13 in Hr; contradiction|].
+      apply in_app_or in Hr; destruct Hr as [Hr|Hr]; [exfalso; pose proof (y_e_scan_only _ _ _ _ r Hr) as C; rewrite Hp15 in C; discriminate C|].
+      apply in_app_or in Hr; destruct Hr as [Hr|Hr]; [rewrite Hrr in Hr; contradiction|].
+      apply in_app_or in Hr; destruct Hr as [Hr|Hr]; [rewrite Hend in Hr; contradiction|].
+      apply in_app_or in Hr; destruct Hr as [Hr|Hr]; [|exfalso; pose proof (y_e_backoff_only _ _ _ _ r Hr) as C; rewrite Hp15 in C; discriminate C].
+      (* the liveness group: the only C15 rule in it *)
+      unfold y_e_live in Hr.
+      destruct (y_quiet m g _ && y_expired p g _ && negb (y_acted m _)); [|contradiction].
+      apply in_app_or in Hr; destruct Hr as [Hr|Hr].
+      { destruct (y_waiting_c12 m); [destruct Hr as [<-|[]]; discriminate Hp15|contradiction]. }
+      apply in_app_or in Hr; destruct Hr as [Hr|Hr].
+      { destruct (state_kind_eqb _ _); [destruct Hr as [<-|[]]; discriminate Hp15|contradiction]. }
+      destruct (state_kind_eqb _ _); [destruct Hr as [<-|[]]; reflexivity|contradiction].
   - intros f0 apps0 E Hn _. apply J5_init; assumption.
   - unfold transcript_ok. destruct (fdl_new p); [split; [exact I|apply run_ok_true]|exact I|exact I].
 Qed.
